@@ -145,6 +145,8 @@ def one(ctx, data, meta=None, opts=((False, True), (False, False))):
                           else 'partItemsOK false for the part')
             for path, ok in (v.get('<deepok>') or {}).items():
                 if ok is True: ctx.count('deepPartOK holds (hypotheses of C02_deep_once_in_order: blocks, content-free markup, stray groups, block wrappers nested up to 6 deep)')
+            for path, ok in (v.get('<deepcok>') or {}).items():
+                if ok is True: ctx.count('deepCPartOK holds (hypotheses of C02_deepC_once_in_order: also tables of any shape, cells as wrappers)')
             for path, ok in (v.get('<notesok>') or {}).items():
                 if ok is True: ctx.count('notesPartOK holds (hypotheses of C02_notes_part: a notes part of admissible notes)')
             if v.get('<groups>'): ctx.count('groups of inline content outside paragraphs (C02_stray_group)', v['<groups>'])
@@ -179,6 +181,7 @@ def run(ctx):
             po, no = (v.get('<partok>') or {}), (v.get('<notesok>') or {})
             for path in po:
                 if (v.get('<deepok>') or {}).get(path) is True: ctx.count('real documents: content part under C02_deep_once_in_order')
+                if (v.get('<deepcok>') or {}).get(path) is True: ctx.count('real documents: content part under C02_deepC_once_in_order')
                 ctx.count('real documents: content part under C02_part_decidable / C02_document / C02_notes_part' if (po[path] is True or no.get(path) is True)
                           else 'real documents: content part outside the part-level theorems (links, nested tables, text boxes, content controls)')
         except Exception:
